@@ -752,7 +752,7 @@ class Backend:
         if any('\n' in c for c in es.cmd_args):
             reasons.append('because command contains newlines')
 
-        if env and env.varnames:
+        if env and (env.varnames or env.unset_vars):
             reasons.append('to set env')
 
         if separator != ' ':
